@@ -25,7 +25,7 @@ def gen_cases(tier, seed):
     rng = random.Random(seed * 141650939 + 8)
     cases = []
     n = 1100 if tier == 'quick' else 25000
-    classes = ['digits', 'alnum', 'ascii', 'latin1', 'latin1_jis', 'kana', 'utf8', 'cyr', 'bytes', 'int', 'sjis_bytes', 'cp932_only', 'hanzi']
+    classes = ['digits', 'alnum', 'ascii', 'latin1', 'latin1_jis', 'kana', 'utf8', 'cyr', 'bytes', 'int', 'sjis_bytes', 'cp932_only', 'hanzi', 'nfd']
     for _ in range(n):
         cls = rng.choice(classes)
         kw = {}
@@ -124,7 +124,7 @@ def per_chunk_policy(content, encoding, mode, sym_payloads):
     n = len(sym_payloads)
     k, m = divmod(len(text), n)
     chunks = [text[i * k + min(i, m):(i + 1) * k + min(i + 1, m)] for i in range(n)]
-    for ch, (got, truncated) in zip(chunks, sym_payloads):
+    for ch, (got, truncated, version, seg_mode) in zip(chunks, sym_payloads):
         if mode == 'hanzi':
             encs = ['gb2312']
         else:
@@ -138,6 +138,10 @@ def per_chunk_policy(content, encoding, mode, sym_payloads):
                 continue
         if want is None:
             return False
+        if not truncated and seg_mode == 'byte' and len(want) >= 2 ** qr.cci_len(version, 'byte'):
+            # the chunk has more bytes than the character count indicator of this version can say (the count wraps):
+            # the same overflow, only that the reader is not left with a dangling segment
+            truncated = True
         if truncated:
             # an overflowing symbol: the readable part must at least start like its chunk (two bytes of slack for
             # the cut inside a count unit)
@@ -172,7 +176,7 @@ def check_sequence(case, seq, rec):
             continue
         # an unparsable (overflowing) symbol: only its first segment is meaningful, what follows is read from cut-off bits
         sym_payloads.append((s.payload if s.parse_error is None else (s.segments[0]['payload'] if s.segments else b''),
-                             s.parse_error is not None))
+                             s.parse_error is not None, s.version, s.segments[0]['mode'] if s.segments else None))
         rec.count('symbols_decoded_in_sequences')
         for prop, kind, detail in devs:
             symptoms.append('symbol-%s-%s' % (prop, kind))
